@@ -39,6 +39,18 @@ impl Token<'_> {
     }
 }
 
+/// verification hook: the precedence level of every operator/punctuation token
+#[cfg(feature = "verif")]
+pub(crate) fn verif_precedences() -> Vec<(String, u8)> {
+    Tokenizer::new("= || && < > <= >= == != + - / * % . ( [ ; , ) ] { } ! ^ x 1 1.5 \"s\" als")
+        .map(|t| {
+            let name = format!("{:?}", t);
+            let name = name.split('(').next().unwrap().to_string();
+            (name, t.precedence() as u8)
+        })
+        .collect()
+}
+
 struct Parser<'a> {
     tokenizer: Tokenizer<'a>,
     current_token: Token<'a>,
